@@ -26,7 +26,7 @@ var intrinsics = map[string]intrinsic{}
 
 // packages whose initialisers are never run (huge tables or OS access, nothing we depend on)
 var skipInit = map[string]bool{
-	"unicode": false, "os": true, "syscall": true, "runtime": true, "net": true, "os/signal": true,
+	"unicode": false, "os": false, "syscall": true, "runtime": true, "net": true, "os/signal": true,
 	"internal/poll": true, "internal/godebug": true, "crypto/internal/boring": true, "log": false,
 	"github.com/tendermint/tendermint/internal/verifvp": true,
 	"reflect": true, "internal/reflectlite": true, "crypto/rand": true, "math/rand": true,
@@ -67,6 +67,16 @@ func (m *Machine) newInput(name string, w int, kind string) *Term {
 	m.nameCount[n] = k + 1
 	full := fmt.Sprintf("in_%s_%d", n, k)
 	m.inputs = append(m.inputs, inputVar{Name: full, W: w, Kind: kind})
+	if rp := m.opts.Replay; rp != nil {
+		v := new(big.Int)
+		if s, ok := rp.Model[full]; ok {
+			v.SetString(s, 10)
+		}
+		if w == 0 {
+			return m.pool.Bool(v.Sign() != 0)
+		}
+		return m.pool.ConstBV(v, w)
+	}
 	return m.pool.Var(full, w)
 }
 
